@@ -1,10 +1,209 @@
-/- Line-protocol handlers for C19 (placeholder until the property is built). -/
-import PandoraModel.Model.Basic
+/- Line-protocol handlers for C19 (model `Model/Save.lean`). -/
+import PandoraModel.Model.Save
+import PandoraModel.Driver.C16
 
 namespace Pandora.Driver.C19
 open Lean (Json)
+open Pandora Pandora.Save Pandora.Dataset
+open Pandora.Driver.C16 (fvalOfJson fvalToJson arrOfJson fn2 fn3 grid2OfJson grid3OfJson optOfJson tab2 clausesToJson)
 
-def handle (op : String) (_j : Json) : Except String Json :=
-  throw s!"unknown op {op}"
+/-! ### decoding -/
+
+def sideOfString : String → Except String Side
+  | "left" => .ok .left
+  | "right" => .ok .right
+  | s => .error s!"unknown side {s}"
+
+def varOfString : String → Except String Var
+  | "disparityMap" => .ok .disparityMap
+  | "confidenceMeasure" => .ok .confidenceMeasure
+  | "validityMask" => .ok .validityMask
+  | s => .error s!"unknown var {s}"
+
+def rowOfJson (j : Json) : Except String SaveRow := do
+  return { side := ← field j "side" >>= strOfJson >>= sideOfString,
+           var := ← field j "var" >>= strOfJson >>= varOfString,
+           file := ← field j "file" >>= strOfJson,
+           dtype := ← field j "dtype" >>= strOfJson,
+           bandNames := ← field j "bandNames" >>= boolOfJson,
+           guardedByVar := ← field j "guardedByVar" >>= boolOfJson,
+           guardedByRight := ← field j "guardedByRight" >>= boolOfJson,
+           geoSide := ← field j "geoSide" >>= strOfJson >>= sideOfString }
+
+def otdOfJson (j : Json) : Except String (List (String × String)) :=
+  listOfJson (fun kv => match kv with
+    | Json.arr #[Json.str k, Json.str v] => .ok (k, v)
+    | _ => .error "bad OTD entry") j
+
+/-- a product: `{"non_empty", "rows", "cols", "disparity" [[v]], "validity" [[v]],
+    "conf": null | {"indicators": [...], "px": [[[v]]] (row, col, k)}, "geo"}` -/
+def productOfJson (j : Json) : Except String Product := do
+  let nonEmpty ← field j "non_empty" >>= boolOfJson
+  if !nonEmpty then return Product.empty
+  let rows ← field j "rows" >>= natOfJson
+  let cols ← field j "cols" >>= natOfJson
+  let disparity ← field j "disparity" >>= grid2OfJson fvalOfJson
+  let validity ← field j "validity" >>= grid2OfJson fvalOfJson
+  let conf ← optOfJson (fun c => do
+      let ind ← field c "indicators" >>= listOfJson strOfJson
+      let px ← field c "px" >>= grid3OfJson fvalOfJson
+      pure (ind, px)) (fieldD j "conf" Json.null)
+  let geo ← field j "geo" >>= strOfJson
+  return { nonEmpty, rows, cols, disparity, validity, conf, geo }
+
+def bandOfJson (j : Json) : Except String Band := do
+  let name ← optOfJson strOfJson (fieldD j "name" Json.null)
+  let px ← field j "px" >>= grid2OfJson fvalOfJson
+  return { name, px }
+
+def fileOfJson (j : Json) : Except String OutFile := do
+  return { dir := ← field j "dir" >>= strOfJson, name := ← field j "name" >>= strOfJson,
+           dtype := ← field j "dtype" >>= strOfJson, rows := ← field j "rows" >>= natOfJson,
+           cols := ← field j "cols" >>= natOfJson, bands := ← field j "bands" >>= listOfJson bandOfJson,
+           geo := ← field j "geo" >>= strOfJson }
+
+def fileToJson (f : OutFile) : Json :=
+  mkObj [("dir", Json.str f.dir), ("name", Json.str f.name), ("dtype", Json.str f.dtype),
+         ("rows", natToJson f.rows), ("cols", natToJson f.cols),
+         ("bands", listToJson (fun (b : Band) => mkObj [
+            ("name", match b.name with
+              | some s => Json.str s
+              | none => Json.null),
+            ("px", tab2 f.rows f.cols b.px fvalToJson)]) f.bands),
+         ("geo", Json.str f.geo)]
+
+def nodataOfJson (j : Json) : Except String NoData :=
+  match j with
+  | Json.str "nan" => .ok .nan
+  | Json.str "NaN" => .ok .nan   -- `update_conf` turns the string "NaN" into a float NaN
+  | Json.num n => if n.exponent = 0 then .ok (.int n.mantissa) else .ok .other
+  | _ => .ok .other
+
+def nodataToJson : NoData → Json
+  | .int i => intToJson i
+  | .nan => Json.str "nan"
+  | .other => Json.str "other"
+
+def dispCfgOfJson (j : Json) : Except String DispCfg :=
+  match j with
+  | Json.null => .ok .null
+  | Json.str s => .ok (.path s)
+  | Json.arr a =>
+    match a.toList.mapM intOfJson with
+    | .ok l => .ok (.ints l)
+    | .error _ => .ok .other
+  | _ => .ok .other
+
+def dispCfgToJson : DispCfg → Json
+  | .null => Json.null
+  | .ints l => listToJson intToJson l
+  | .path s => Json.str s
+  | .other => Json.str "<other>"
+
+def optStrOfJson (j : Json) : Except String (Option String) := optOfJson strOfJson j
+
+def key? (j : Json) (k : String) : Option Json :=
+  match j.getObjVal? k with
+  | .ok v => some v
+  | .error _ => none
+
+def userSideOfJson (j : Json) : Except String UserSide := do
+  let img ← match key? j "img" with
+    | some v => (strOfJson v).map some
+    | none => pure none
+  let nodata ← match key? j "nodata" with
+    | some v => (nodataOfJson v).map some
+    | none => pure none
+  let opt (k : String) : Except String (Option (Option String)) := match key? j k with
+    | some v => (optStrOfJson v).map some
+    | none => pure none
+  let disp ← match key? j "disp" with
+    | some v => (dispCfgOfJson v).map some
+    | none => pure none
+  return { img, nodata, mask := ← opt "mask", classif := ← opt "classif", segm := ← opt "segm", disp }
+
+def sideCfgOfJson (j : Json) : Except String SideCfg := do
+  return { img := ← field j "img" >>= strOfJson, nodata := ← field j "nodata" >>= nodataOfJson,
+           mask := ← field j "mask" >>= optStrOfJson, classif := ← field j "classif" >>= optStrOfJson,
+           segm := ← field j "segm" >>= optStrOfJson, disp := ← field j "disp" >>= dispCfgOfJson }
+
+def optStrToJson : Option String → Json
+  | some s => Json.str s
+  | none => Json.null
+
+def sideCfgToJson (s : SideCfg) : Json :=
+  mkObj [("img", Json.str s.img), ("nodata", nodataToJson s.nodata), ("mask", optStrToJson s.mask),
+         ("classif", optStrToJson s.classif), ("segm", optStrToJson s.segm), ("disp", dispCfgToJson s.disp)]
+
+def pairToJson : Option (SideCfg × SideCfg) → Json
+  | some (l, r) => mkObj [("left", sideCfgToJson l), ("right", sideCfgToJson r)]
+  | none => Json.str "refused"
+
+def factsOfJson (j : Json) : Except String MainFacts := do
+  return { writesRightDisp := ← field j "writesRightDisp" >>= boolOfJson,
+           addsMargins := ← field j "addsMargins" >>= boolOfJson }
+
+/-! ### ops -/
+
+/-- `C19.save`: the files `save_results` writes for two products, and the spec on them -/
+def opSave (j : Json) : Except String Json := do
+  let tbl ← field j "table" >>= listOfJson rowOfJson
+  let otd ← field j "otd" >>= otdOfJson
+  let left ← field j "left" >>= productOfJson
+  let right ← field j "right" >>= productOfJson
+  let files := saveResults otd tbl left right
+  return mkObj [("files", listToJson fileToJson files),
+                ("table_documented", Json.bool (decide (tbl = documentedTable) && decide (otd = documentedOtd)))]
+
+/-- `C19.spec_save`: the specification on files read back from the output directory -/
+def opSpecSave (j : Json) : Except String Json := do
+  let left ← field j "left" >>= productOfJson
+  let right ← field j "right" >>= productOfJson
+  let files ← field j "files" >>= listOfJson fileOfJson
+  return clausesToJson (specSaveClauses left right files)
+
+/-- `C19.check_input`: model of `check_input_section` on a user input section -/
+def opCheckInput (j : Json) : Except String Json := do
+  let ul ← field j "left" >>= userSideOfJson
+  let ur ← field j "right" >>= userSideOfJson
+  return pairToJson (checkInput ul ur)
+
+/-- `C19.main_cfg`: what `main` saves for completed sections `left`, `right`, and what feeding it back gives -/
+def opMainCfg (j : Json) : Except String Json := do
+  let facts ← field j "facts" >>= factsOfJson
+  let l ← field j "left" >>= sideCfgOfJson
+  let r ← field j "right" >>= sideCfgOfJson
+  let s : Saved Unit Unit := mainSaved facts l r () ()
+  return mkObj [("saved_left", sideCfgToJson s.left), ("saved_right", sideCfgToJson s.right),
+                ("has_margins", Json.bool s.margins.isSome),
+                ("effective_right", sideCfgToJson (effectiveRight l r)),
+                ("accepted", Json.bool (schemaOk l r)),
+                ("refeed", pairToJson (refeedInput s)),
+                ("left_is_path", Json.bool (match l.disp with
+                  | .path _ => true
+                  | _ => false))]
+
+/-- `C19.spec_refeed`: the specification on what was observed when the saved file was fed back -/
+def opSpecRefeed (j : Json) : Except String Json := do
+  let l ← field j "left" >>= sideCfgOfJson
+  let r ← field j "right" >>= sideCfgOfJson
+  let hasMargins ← field j "has_margins" >>= boolOfJson
+  let obsJ ← field j "obs"
+  let obs ← match obsJ with
+    | Json.str "refused" => pure none
+    | _ => do
+      let l2 ← field obsJ "left" >>= sideCfgOfJson
+      let r2 ← field obsJ "right" >>= sideCfgOfJson
+      pure (some (l2, r2))
+  return clausesToJson (specRefeedObs l r obs hasMargins)
+
+def handle (op : String) (j : Json) : Except String Json :=
+  match op with
+  | "C19.save" => opSave j
+  | "C19.spec_save" => opSpecSave j
+  | "C19.check_input" => opCheckInput j
+  | "C19.main_cfg" => opMainCfg j
+  | "C19.spec_refeed" => opSpecRefeed j
+  | _ => throw s!"unknown op {op}"
 
 end Pandora.Driver.C19
